@@ -86,6 +86,10 @@ Theorem C06_L4_read_pmt_decidable : forall c pid items, hyp_readb c pid items = 
   read_pmt (packetise pid items) pid = Ok (sec_result (sec c)).
 Proof. exact hyp_readb_sound. Qed.
 Print Assumptions C06_L4_read_pmt_decidable.
+Theorem C06_L4_after_interrupted_decidable : forall ca cb pid la lb tail, hyp_interruptedb ca cb pid la lb = true ->
+  read_pmt (packetise pid la ++ packetise pid lb ++ tail) pid = Ok (sec_result (sec cb)).
+Proof. exact hyp_interruptedb_sound. Qed.
+Print Assumptions C06_L4_after_interrupted_decidable.
 Theorem C06_wf_carrier_decidable : forall c, wf_carrierb c = true -> wf_carrier c.
 Proof. exact wf_carrierb_sound. Qed.
 Print Assumptions C06_wf_carrier_decidable.
